@@ -810,4 +810,38 @@ def npDot1 {ν : Type} [PyNum ν] (a b : NpVec ν) : ν := sumNum (List.zipWith 
 def npMatVec {ν : Type} [PyNum ν] (m : NpMat ν) (v : NpVec ν) : NpVec ν := m.map (fun r => npDot1 r v)
 -- --- end T16
 
+-- --- T19: text forms of Pauli operators (harness/translate_t19.py, property C11); every definition is compared with CPython in
+-- harness/prelude_check.py (ops `t19_*` of the driver).  DOMAIN: ASCII strings.
+/-- `c.isspace()` on ASCII: blank, U+0009–U+000D, U+001C–U+001F -/
+def isPyWhite (c : Char) : Bool :=
+  c == ' ' || (decide (9 ≤ c.toNat) && decide (c.toNat ≤ 13)) || (decide (28 ≤ c.toNat) && decide (c.toNat ≤ 31))
+/-- `s.strip()` -/
+def stripWs (s : Str) : Str := ((s.dropWhile isPyWhite).reverse.dropWhile isPyWhite).reverse
+/-- the look-ahead `[^(]*\)` matches here: reading on, a `)` comes before any `(` -/
+def closesBeforeOpen : Str → Bool
+  | [] => false
+  | c :: rest => if c == ')' then true else if c == '(' then false else closesBeforeOpen rest
+/-- `re.split(r"\+(?![^(]*\))", s)`: split at every `+` that is not inside a bracket that closes later -/
+def reSplitPlus : Str → List Str
+  | [] => [[]]
+  | c :: rest =>
+    if c == '+' && !closesBeforeOpen rest then [] :: reSplitPlus rest
+    else match reSplitPlus rest with
+      | h :: t => (c :: h) :: t
+      | [] => [[c]]
+
+/-- a Python `set` of HASHABLE OBJECTS (instances of a class with `__hash__` and `__eq__`), as the list of its elements in insertion
+    order: only WHICH objects are elements matters to `len` and `==` -/
+abbrev HSet (α : Type) := List α
+/-- the lookup test of CPython's hash table: the stored hash equals the new hash AND `existing == new` (`existing.__eq__(new)`) -/
+def sameElem {α H : Type} [DecidableEq H] (hash : α → H) (eq : α → α → Bool) (existing new : α) : Bool :=
+  decide (hash existing = hash new) && eq existing new
+/-- `set(xs)`: an object is added unless an element that is the same (hash and `==`) is already there -/
+def setOfHashables {α H : Type} [DecidableEq H] (hash : α → H) (eq : α → α → Bool) (xs : List α) : HSet α :=
+  xs.foldl (fun acc t => if acc.any (fun e => sameElem hash eq e t) then acc else acc ++ [t]) []
+/-- `a == b` on such sets: equal sizes and every element of `a` is found in `b` -/
+def setEqHashables {α H : Type} [DecidableEq H] (hash : α → H) (eq : α → α → Bool) (a b : HSet α) : Bool :=
+  a.length == b.length && a.all (fun t => b.any (fun e => sameElem hash eq e t))
+-- --- end T19
+
 end OQ.Py
